@@ -103,10 +103,31 @@ def judge(rows):
                 st["texts_compared_with_model"] += 1
                 if _TO.sub("timeout - T[*]", m) != ir_n:
                     bad_model = bad_model or "text %d: model %s" % (k, m)
+        for tk in toks:
+            if tk.startswith("+t") and "=" in tk:
+                try:
+                    a, b = tk[2:].split("=")
+                    a, b = int(a), int(b)
+                except ValueError:
+                    continue
+                if a < len(irecs) and b < len(irecs):
+                    st["twin_pairs"] = st.get("twin_pairs", 0) + 1
+                    ta, tb = strip_depths(_TO.sub("timeout - T[*]", irecs[a])), strip_depths(_TO.sub("timeout - T[*]", irecs[b]))
+                    if ta != tb:
+                        bad_spec = bad_spec or ("transparency: text %d must report what its unoptimised twin (text %d, the same function bound by (def ff (fn ...))) reports: %s" % (a, b, tb))
         if space:
             st["space_judged_ops"] += 1
             sites = {}
-            for ir in irecs:
+            twins = set()
+            for tk in toks:
+                if tk.startswith("+t") and "=" in tk:
+                    try:
+                        twins.add(int(tk[2:].split("=")[1]))
+                    except ValueError:
+                        pass
+            for k, ir in enumerate(irecs):
+                if k in twins:
+                    continue      # the unoptimised twin is allowed (expected) to grow
                 for site, tr in probes(ir).items():
                     sites.setdefault(site, set()).update(tr)
             st["probe_sites_judged"] += len(sites)
